@@ -49,11 +49,27 @@ def r10_residual_pairing(ctx):
             loops = ballot_loops(ctx, g)
             for loop, which, filters, bvar in loops:
                 credits_total = 0
-                for blk in _blocks(loop):
+                # the code run per ballot: the loop body, and the local helpers it hands the ballot to (their parameter is the ballot)
+                units = [(loop, bvar)]
+                seen_h = set()
+                work = [(loop, bvar)]
+                while work:
+                    node_, bv_ = work.pop()
+                    for c_ in ast.walk(node_):
+                        if isinstance(c_, ast.Call) and isinstance(c_.func, ast.Name):
+                            h_ = deriv(ctx).local_func(c_.func.id, g)
+                            if h_ is None or any(h_.node is x for x in ast.walk(loop)):
+                                continue
+                            for i_, a_ in enumerate(c_.args):
+                                if isinstance(a_, ast.Name) and a_.id == bv_ and i_ < len(h_.params) and (h_.qualname, h_.params[i_]) not in seen_h:
+                                    seen_h.add((h_.qualname, h_.params[i_]))
+                                    units.append((h_.node, h_.params[i_]))
+                                    work.append((h_.node, h_.params[i_]))
+                for blk, bv_ in [(b_, v_) for u_, v_ in units for b_ in _blocks(u_)]:
                     credits = [s for s in blk if isinstance(s, ast.AugAssign) and isinstance(s.op, ast.Add)
                                and isinstance(s.target, ast.Attribute) and s.target.attr == 'vote']
                     debits = [s for s in blk if isinstance(s, ast.AugAssign) and isinstance(s.op, ast.Sub)
-                              and unparse(s.target) == '%s.residual' % bvar]
+                              and unparse(s.target) == '%s.residual' % bv_]
                     if not credits and not debits:
                         continue
                     credits_total += len(credits)
@@ -68,16 +84,28 @@ def r10_residual_pairing(ctx):
                           'no credit found', nontrivial=False)
                 # per ballot: residual initialised to the multiplier before the walk, added to E.residual after it
                 top = loop.body
-                inits = [s for s in top if isinstance(s, ast.Assign) and unparse(s.targets[0]) == '%s.residual' % bvar]
+                inits = [(s, bvar) for s in top if isinstance(s, ast.Assign) and unparse(s.targets[0]) == '%s.residual' % bvar]
+                # ... or as a top-level statement of a helper the loop body calls unconditionally with the ballot
+                for s in top:
+                    if isinstance(s, ast.Expr) and isinstance(s.value, ast.Call) and isinstance(s.value.func, ast.Name):
+                        h_ = deriv(ctx).local_func(s.value.func.id, g)
+                        if h_ is not None:
+                            for i_, a_ in enumerate(s.value.args):
+                                if isinstance(a_, ast.Name) and a_.id == bvar and i_ < len(h_.params):
+                                    inits += [(x, h_.params[i_]) for x in h_.node.body if isinstance(x, ast.Assign)
+                                              and unparse(x.targets[0]) == '%s.residual' % h_.params[i_]]
                 ok_init = False
                 if len(inits) == 1:
-                    v = inits[0].value
-                    if unparse(v) == '%s.multiplier' % bvar:
+                    v = inits[0][0].value
+                    bvar_i = inits[0][1]
+                    inits = [inits[0][0]]
+                    if unparse(v) == '%s.multiplier' % bvar_i:
                         ok_init = True
                     elif isinstance(v, ast.Name):
                         pre = [s for s in top if isinstance(s, ast.Assign) and isinstance(s.targets[0], ast.Name)
                                and s.targets[0].id == v.id and unparse(s.value) == '%s.multiplier' % bvar and s.lineno < inits[0].lineno]
                         ok_init = len(pre) == 1
+                inits = [x[0] if isinstance(x, tuple) else x for x in inits]
                 ctx.check(ok_init, R, inits[0] if inits else loop, g, 'each ballot starts a distribution with residual = its multiplier',
                           '%s.residual = %s.multiplier, once per ballot' % (bvar, bvar), 'residual initialisation is missing, repeated or not the multiplier')
                 sums = [s for s in top if isinstance(s, ast.AugAssign) and isinstance(s.op, ast.Add) and ctx.canon(s.target, g) == 'E.residual']
